@@ -182,6 +182,9 @@ def check_C01(tier, seed):
                         mcs=[("e7", 7, [], 3, 3, {})],
                         gens=[("inc14", 15, bt.seed_inc(14), 3, 1, {}),
                               ("bulk14", 15, bt.seed_bulk(14), 2, 1, {}),
+                              # root collapse: every child of the root but one emptied, the survivor loaded or not
+                              ("inc5d4", 6, bt.seed_inc(5), 4, 1, dict(kinds=("del",))),
+                              ("inc9d5", 10, bt.seed_inc(9), 5, 1, dict(kinds=("del",))),
                               # nested buckets touched next to merging leaves (their entries are rewritten at spill)
                               ("nest14", 15, bt.seed_nested(14, (5, 10)), 3, 1, dict(kinds=("del", "touch", "delb", "mkb")))])
     else:
@@ -749,12 +752,14 @@ def check_C03(tier, seed):
     if tier == "quick":
         plans = [("gr8", 8, 8, 2, ["two", "three"], 60), ("gr8r3", 6, 8, 3, ["two"], 150)]
         runs = [dict(profile=p, seed=seed * 100 + i, n=4, len=70, nkeys=10, nvals=4,
-                     args=["--readback", "0", "--presized", "1", "--max-readers", "3", "--reader-churn", str(ch)])
+                     args=["--readback", "0", "--presized", "1", "--max-readers", "3", "--reader-churn", str(ch),
+                           "--ladder", str(3 if ch else 0)])
                 for i, (p, ch) in enumerate([("two", 0), ("overflow", 0), ("two", 30), ("three", 30)])]
     else:
         plans = [("gr9", 10, 9, 2, ["two", "three", "overflow"], 100), ("gr9r3", 6, 9, 3, ["two", "three"], 300)]
         runs = [dict(profile=p, seed=seed * 1000 + i * 10 + j + ch * 3, n=10, len=120, nkeys=nk, nvals=4,
-                     args=["--readback", "0", "--presized", "1", "--max-readers", "4", "--reader-churn", str(ch)])
+                     args=["--readback", "0", "--presized", "1", "--max-readers", "4", "--reader-churn", str(ch),
+                           "--ladder", str(3 + j if ch else 0)])
                 for i, p in enumerate(["two", "overflow", "three", "longkey"]) for j, nk in enumerate([10, 24])
                 for ch in (0, 30)]
     gs = dict(behaviours=0, replays=0, steps=0, states=0, transitions=0, samples=[], configs=[])
@@ -1112,7 +1117,8 @@ def check_C16(tier, seed):
             sub = sub[:20]
         args = ["--pagesize", r["pagesize"], "--num-pages", r["num_pages"], "--strict", r["strict"], "--populate", r["populate"]]
         # (every other configuration with the profile that has the empty key, the empty bucket name and the empty value)
-        nrep, nst = kv.replay_behaviours(v, sub, [("overflow" if ri % 2 == 0 else "empty") if r["pagesize"] <= 4096 else "flat"],
+        # ... and every third one with 300-byte keys: branch pages that span more than one page at the small sizes)
+        nrep, nst = kv.replay_behaviours(v, sub, [("overflow", "empty", "three")[ri % 3] if r["pagesize"] <= 4096 else "flat"],
                                          "C16-%d-%d" % (r["pagesize"], r["num_pages"]), extra_args=args, jobs=8)
         tot["replays"] += nrep
         tot["steps"] += nst
